@@ -74,6 +74,7 @@ _short = st.one_of(
 )
 _version = st.one_of(
     st.sampled_from(["7", "7.2", "20", "1.0.0", "rawhide", "Rawhide", "f.1", "2.4", "007", "ga", "eus", "x.fast", "updates", "testing", "1.aus"]).filter(ref_version),
+    st.sampled_from(["rawhide ", " x", "Branched\t", " ", "a b ", ".", "_", "X ", "~"]),     # free-form means free-form: blanks at the edges included
     st.lists(st.integers(0, 999).map(str), min_size=1, max_size=4).map(".".join),
     st.builds(lambda a, b: a + b, st.sampled_from(list("abzRX_.~+ ")), st.text(st.sampled_from(list("abzXY019._+~ ")), max_size=6)),
 )
